@@ -143,6 +143,20 @@ Definition wire_body (h : hdict) (msg : blob) : wire :=
 Definition u2_headers (h : hdict) : hdict :=
   fold_left (fun acc kv => dict_set (lower (fst kv)) (snd kv) acc) h [].
 
+(* the same dictionary with the keys urllib really uses: str.capitalize() (ASCII names) *)
+Definition upper_c (c : N) : N := if (97 <=? c) && (c <=? 122) then c - 32 else c.
+Definition capitalize (s : str) : str :=
+  match s with [] => [] | c :: r => upper_c c :: lower r end.
+Definition u2_cap_headers (h : hdict) : hdict :=
+  fold_left (fun acc kv => dict_set (capitalize (fst kv)) (snd kv) acc) h [].
+
+(* send():  request.headers.update(u2request.headers)
+   the CALLER's dict receives urllib's capitalised copies (u2request.headers: not the
+   "unredirected" ones - Cookie from the jar, Content-Length, Host ... are kept apart by urllib).
+   The dict belongs to the caller: a Request object sent again, or a dict shared by several
+   Requests, brings it back to the next send in this state. *)
+Definition writeback (h : hdict) : hdict := dict_update h (u2_cap_headers h).
+
 (* ------------------------------------------------------------------ *)
 (* cookies (http.cookiejar.CookieJar with the default policy, one host) *)
 (* ------------------------------------------------------------------ *)
@@ -276,7 +290,10 @@ Record sreq := mkReq {
                                 q_hdrs = options.headers; None: the harness built the Request, q_hdrs = its headers *)
   q_path : str;
   q_hdrs : hdict;
-  q_msg : blob }.
+  q_msg : blob;
+  q_reuse : bool }.          (* the headers dict object is the one the previous send of this session used
+                                (same Request object sent again, or one dict shared by the Requests):
+                                q_hdrs is what the caller once put into it *)
 Record sresp := mkResp {      (* what the loopback server is scripted to do *)
   p_challenge : option blob; (* Some b: requests without Authorization get 401 + WWW-Authenticate: Basic, body b *)
   p_status : N;
@@ -300,8 +317,19 @@ Record pred := mkPred {
 Definition has_key (k : str) (d : hdict) : bool :=
   match dict_get k d with Some _ => true | None => false end.
 
-Definition model_step (P : params) (k : tkind) (c : creds) (j : jar) (q : sreq) (p : sresp) : pred * jar :=
-  let h0 := match q_action q with Some a => soap_headers P a (q_hdrs q) | None => q_hdrs q end in
+(* the headers dict a send starts from; prev = the dict as the previous send left it *)
+Definition start_headers (P : params) (prev : hdict) (q : sreq) : hdict :=
+  match q_action q with
+  | Some a => soap_headers P a (q_hdrs q)          (* _SoapClient builds a new dict for every call *)
+  | None => if q_reuse q then prev else q_hdrs q
+  end.
+(* ... and the state send() leaves it in: credentials set, urllib's copies written back *)
+Definition headers_after (P : params) (k : tkind) (c : creds) (prev : hdict) (q : sreq) : hdict :=
+  writeback (add_credentials P k c (start_headers P prev q)).
+
+Definition model_step (P : params) (k : tkind) (c : creds) (j : jar) (prev : hdict) (q : sreq) (p : sresp)
+  : pred * jar :=
+  let h0 := start_headers P prev q in
   let h1 := add_credentials P k c h0 in
   let w := wire_body h1 (q_msg q) in
   let u2 := u2_headers h1 in
@@ -371,17 +399,17 @@ Definition step_agrees (m : pred) (o : sobs) : bool :=
 
 Definition step := (sreq * sresp * sobs)%type.
 
-Fixpoint session_agrees (P : params) (k : tkind) (c : creds) (j : jar) (steps : list step) : bool :=
+Fixpoint session_agrees (P : params) (k : tkind) (c : creds) (j : jar) (prev : hdict) (steps : list step) : bool :=
   match steps with
   | [] => true
   | (q, p, o) :: rest =>
-      let '(m, j') := model_step P k c j q p in
-      step_agrees m o && session_agrees P k c j' rest
+      let '(m, j') := model_step P k c j prev q p in
+      step_agrees m o && session_agrees P k c j' (headers_after P k c prev q) rest
   end.
 
 Definition xcase := (tkind * creds * list step)%type.
 Definition x_agrees (x : xcase) : bool :=
-  let '(k, c, steps) := x in session_agrees impl_params k c [] steps.
+  let '(k, c, steps) := x in session_agrees impl_params k c [] [] steps.
 
 (* ------------------------------------------------------------------ *)
 (* specification, from the property text                               *)
